@@ -16,7 +16,9 @@ import SioVerif.Gen.Locks
      (which the rank argument cannot order, and which for a RWMutex read lock is a self-deadlock
      once a writer waits);
   * `no_lock_left_held` : no function returns holding a lock it acquired without a deferred unlock;
-  * `library_deadlock_free` : the three together.
+  * `library_deadlock_free` : the three together;
+  * `reachable_deadlock_free` : every configuration reachable by requests made at acquisition sites of the graph, grants and
+     releases respects the graph (`lrun_inv`), so no execution - any number of goroutines, any schedule - reaches a mutex deadlock.
   Not proved (stated in DESIGN.md): data-race freedom (the race detector runs over generated
   concurrent programs instead: testing, not proof), and blocking through channels, WaitGroups and
   sync.Once, which the lock graph does not see (the hang watchdog does).
@@ -83,6 +85,90 @@ theorem no_lock_left_held : Gen.Locks.leftHeld = 0 := by decide
 theorem library_deadlock_free {G L : Type} (cls : L → Nat) (c : Cfg G L) (hc : Respects cls Gen.Locks.edges c) :
     ∀ n g l, ¬ Deadlock c n g l :=
   no_deadlock rankOf Gen.Locks.edges edges_increase_rank cls c hc
+
+/-! ### from acquisition sites to configurations
+
+  `Respects` is not an assumption about executions but a consequence of what the translator reports about *sites*: if every request
+  for a lock l made while holding h is an edge (class h, class l), then every configuration any execution can reach respects the graph. -/
+
+/-- goroutines and lock instances are numbered; a goroutine holds a list of locks and may be blocked on one -/
+structure LState where
+  held : Nat → List Nat
+  waiting : Nat → Option Nat
+
+inductive LOp where
+  | request (g l : Nat)   -- g starts to acquire l (and blocks until granted)
+  | grant (g : Nat)       -- the lock g waits for is free: g gets it
+  | release (g l : Nat)
+
+/-- one step; a request is only made where the program has an acquisition site for it: every lock held is ordered before l in `edges` -/
+def lstep (cls : Nat → Nat) (edges : List (Nat × Nat)) (s : LState) : LOp → LState
+  | .request g l =>
+    if (s.waiting g).isNone && (s.held g).all (fun h => (cls h, cls l) ∈ edges) then
+      { s with waiting := fun x => if x = g then some l else s.waiting x }
+    else s
+  | .grant g =>
+    match s.waiting g with
+    | some l => { held := fun x => if x = g then l :: s.held g else s.held x, waiting := fun x => if x = g then none else s.waiting x }
+    | none => s
+  | .release g l => { s with held := fun x => if x = g then (s.held g).erase l else s.held x }
+
+def lrun (cls : Nat → Nat) (edges : List (Nat × Nat)) (s : LState) (ops : List LOp) : LState := ops.foldl (lstep cls edges) s
+
+def LInv (cls : Nat → Nat) (edges : List (Nat × Nat)) (s : LState) : Prop :=
+  ∀ g l, s.waiting g = some l → ∀ h ∈ s.held g, (cls h, cls l) ∈ edges
+
+theorem lstep_inv (cls : Nat → Nat) (edges : List (Nat × Nat)) (s : LState) (op : LOp) (hi : LInv cls edges s) :
+    LInv cls edges (lstep cls edges s op) := by
+  cases op with
+  | request g l =>
+    simp only [lstep]
+    split
+    · rename_i hc
+      simp only [Bool.and_eq_true, List.all_eq_true, decide_eq_true_eq] at hc
+      intro g' l' hw h hh
+      by_cases hg : g' = g
+      · subst hg
+        simp only [↓reduceIte, Option.some.injEq] at hw
+        subst hw
+        exact hc.2 h hh
+      · simp only [hg, ↓reduceIte] at hw
+        exact hi g' l' hw h hh
+    · exact hi
+  | grant g =>
+    simp only [lstep]
+    split
+    · intro g' l' hw h hh
+      by_cases hg : g' = g
+      · subst hg; simp at hw
+      · simp only [hg, ↓reduceIte] at hw hh
+        exact hi g' l' hw h hh
+    · exact hi
+  | release g l =>
+    intro g' l' hw h hh
+    simp only [lstep] at hw hh
+    by_cases hg : g' = g
+    · subst hg
+      simp only [↓reduceIte] at hh
+      exact hi g' l' hw h (List.mem_of_mem_erase hh)
+    · simp only [hg, ↓reduceIte] at hh
+      exact hi g' l' hw h hh
+
+theorem lrun_inv (cls : Nat → Nat) (edges : List (Nat × Nat)) (ops : List LOp) : ∀ s, LInv cls edges s → LInv cls edges (lrun cls edges s ops) := by
+  induction ops with
+  | nil => intro s h; exact h
+  | cons op ops ih => intro s h; exact ih _ (lstep_inv cls edges s op h)
+
+/-- every configuration reachable from the empty one by requests made at acquisition sites of the graph, grants and releases - any
+    number of goroutines, any schedule - respects the graph, hence (with a rank) contains no cycle of goroutines each waiting for a
+    lock the next one holds -/
+theorem reachable_deadlock_free (cls : Nat → Nat) (ops : List LOp) :
+    let s := lrun cls Gen.Locks.edges ⟨fun _ => [], fun _ => none⟩ ops
+    ∀ n g l, ¬ Deadlock (G := Nat) (L := Nat) ⟨fun x y => y ∈ s.held x, s.waiting⟩ n g l := by
+  intro s
+  apply library_deadlock_free cls
+  intro g l l' hw hh
+  exact lrun_inv cls Gen.Locks.edges ops _ (by intro g l h; simp at h) g l hw l' hh
 
 /-! non-vacuity: the graph is not empty, and a graph with a cycle admits no rank (two locks taken in
     both orders deadlock) -/
